@@ -144,6 +144,11 @@ IRvc(a, i0, b, j0) ==
       c2 == IDigCmp(SubSeq(a, i2, i3 - 1), SubSeq(b, j2, j3 - 1)) IN
   IF c2 # 0 THEN c2
   ELSE IF i3 = i0 /\ j3 = j0 THEN 0 ELSE IRvc(a, i3, b, j3)
+RpmImplCmpKey(x, y) ==
+  LET e == NumCmp(x.epoch, y.epoch) IN
+  IF e # 0 THEN e
+  ELSE LET v == IRvc(x.version, 1, y.version, 1) IN
+       IF v # 0 THEN v ELSE IRvc(x.release, 1, y.release, 1)
 RpmImplCmp(a, b) ==
   LET x == RSplit(a)  y == RSplit(b)
       e == NumCmp(x.epoch, y.epoch) IN
